@@ -349,15 +349,20 @@ def get_plan(pid):
         plan.own = lambda name: "C11." in name or "#raises." in name or "#cover" in name or "#subset" in name
         return plan
     if pid == "C10":
-        return JobsPlan("C10", [("C10.frame", "memo_frame", {})], rtc=["memo"], level="other",
+        fs_t = "dep_logic.markers.single:MarkerExpression.from_specifier"
+        plan = JobsPlan("C10", [("C10.frame", "memo_frame", {}), (fs_t, "render_function", {"name": fs_t})], rtc=["memo"], level="other",
                         technique="frame (read-set) analysis of every memoised function from the AST: uncompared fields reachable through the key parameters, and uncompared fields of returned key objects "
                                   "that str()/evaluate read; lift to histories by the memoisation meta-lemma; cold-vs-warm differential as bounded part",
                         trusted_base=["meta-lemma: memoising a deterministic f under key equality is unobservable iff key-equal arguments give observationally equal results",
                                       "parameter/field annotations of the memoised functions are truthful (used only to resolve method names to class families)",
-                                      "whitelisted lazy cache MarkerExpression._specifier: filled from the compared fields by `specifier`; consistency of the specifier installed by from_specifier is C11's clause",
+                                      "whitelisted lazy cache MarkerExpression._specifier: filled from the compared fields by `specifier`; the one place that installs it from outside, from_specifier, is under "
+                                      "the obligation C10.from_specifier.installed-view-is-spelled-as-the-value (the installed view is the one the atom's own text gives, in spelling too)",
                                       "law.C13 (equal keys are interchangeable) and C02 (meaning of results) supply the 'meaning' half"],
                         explanation="proof part: for each lru_cache'd function (found by scanning the real source, so a newly memoised function is analysed too) the read-set obligations are decided statically; "
-                                    "bounded part: probe operations observed cold and after generated histories, incl. key-equal-but-differently-built operands and merged results spelled differently")
+                                    "bounded part: probe operations observed cold and after generated histories, incl. key-equal-but-differently-built operands, merged results spelled differently "
+                                    "and operands re-rendered by the library against the same atoms parsed from text")
+        plan.own = lambda name: "C10." in name
+        return plan
     if pid == "C14":
         jobs = [(f"C14.spec.{k}", "spec_c14", {"chunk": (k, 5)}) for k in range(5)] + [("C14.lemmas", "spec_lemmas", {}), ("C14.markers", "marker_c14", {})]
         return JobsPlan("C14", jobs, rtc=["spec_algebra", "marker_algebra"], level="other",
@@ -382,12 +387,17 @@ def get_plan(pid):
         jobs = [("C16.nested", "tags_compare", {"which": "nested"})]
         jobs += [(f"C16.compare.{k}", "tags_compare", {"which": "compare", "chunk": (k, 6)}) for k in range(6)]
         jobs += [(f"C16.widen.{k}", "tags_compare", {"which": "widen", "chunk": (k, 9)}) for k in range(9)]
-        return JobsPlan("C16", jobs, rtc=["tags_compare"],
+        # the nestedness lemma is over the C09 *rules*: the C09 obligations (rules = real tag lists) are re-established here as foreign
+        # obligations, so that a tree on which they fail leaves C16 undecided instead of proved from a broken premise
+        jobs += [(f"tags_platform.{k}", "tags_platform", {"chunk": (k, 16)}) for k in range(16)]
+        plan = JobsPlan("C16", jobs, rtc=["tags_compare"],
                         technique="(i) two-copy symbolic execution of the real _evaluate_python under requires_python(A) subset requires_python(B); (ii) nestedness lemma over the proved C09 rules; "
                                   "(iii) symbolic execution of the real EnvSpec.compare in both directions over the platform-shape table; z3",
                         trusted_base=["A-ENGINE", "the C08 trusted base (law.C05.empty-exact, A-PARSE-SHAPE)", "the C09 contract of compatible_tags (proved by the C09 check) links the rules to the real tag lists",
                                       "law.C13: == on requires_python objects is symmetric and implies equal sets (proved by the C13 check)", "A-DATACLASS", "A-TERM"],
                         assumptions=["nestedness is claimed on the stated grid: same major for manylinux/musllinux, macOS 10.x minors <= 16, claimed (non-fat) macOS formats"])
+        plan.own = lambda name: not ("Platform.compatible_tags#" in name or "_evaluate_platform#" in name)
+        return plan
     if pid == "C09":
         return JobsPlan("C09", [(f"tags_platform.{k}", "tags_platform", {"chunk": (k, 16)}) for k in range(16)], rtc=["tags_platform"],
                         replay=lambda name, rec: ({"suite": "platform_replay", "arg": {"platform": rec["model"]["platform"]}} if (rec.get("model") or {}).get("platform") else None),
